@@ -683,6 +683,9 @@ func execLine(input string) string {
 	if len(f) > 0 && f[0] == "addrm" {
 		return execAddRm(f)
 	}
+	if len(f) > 0 && (f[0] == "cclose" || f[0] == "rclose") {
+		return execCClose(f)
+	}
 	if len(f) > 0 && f[0] == "cstream" {
 		return execCStream(f)
 	}
@@ -867,6 +870,20 @@ func (Area) Gen(r *rand.Rand, tier string, emit func(string)) {
 		"cstream 1600 refuse 0", "cstream 1600 hang 1", "cstream 0 hold1 0", "cstream 0 ready 1",
 	} {
 		emit(l)
+	}
+	// Close while Streams WAIT on a not-ready connection (dial blocked / failing): they must all return at once
+	for _, l := range []string{
+		"cclose 8000 hang 6", "cclose 8000 refuse 6", "cclose 0 hang 3", "cclose 0 refuse 4", "cclose 8000 hang 1", "cclose 8000 refuse 2",
+	} {
+		emit(l)
+	}
+	if tier == "thorough" {
+		for k := 0; k < 30; k++ {
+			emit(fmt.Sprintf("cclose %d %s %d", []int{0, 8000, 20000}[r.Intn(3)], []string{"hang", "refuse"}[k%2], 1+r.Intn(12)))
+		}
+		// through ReflectionRouter.Remove with the backend down (Remove first waits 5–10 s for the resolver's own attempt)
+		emit("rclose 30000 refuse 4")
+		emit("rclose 0 hang 3")
 	}
 	nrace := 25
 	if tier == "thorough" {
